@@ -794,7 +794,9 @@ def _judge(chk, groups):
 def run(chk):
     quick = chk.tier == 'quick'
     boot()
+    import faulthandler
     import time as _t
+    faulthandler.dump_traceback_later(300 if quick else 3000, exit=False)     # diagnosis of a stuck run
     t0 = [_t.time()]
 
     def stage(name):
@@ -924,8 +926,10 @@ def run(chk):
                              for tr in traces], lambda i, traces=traces: {'records': traces[i]}))
 
     # 7 the judge itself: corrupted copies of a good trace must be rejected with the right clause
-    w, _ = run_stream([b'read m:p\nping tok\n'])
-    good = w.events
+    good = [{'ev': 'chunk_in', 'reqs': [a_in(b'read m:p'), a_in(b'ping tok')]},          # hand-written
+            {'ev': 'line_out', 'o': a_out(b'reply m:p [1.0, {}]')},
+            {'ev': 'line_out', 'o': a_out(b'pong tok [null, {"t": 1.5}]')},
+            {'ev': 'handler_end', 'reason': 'eof'}]
     outs = [i for i, e in enumerate(good) if e['ev'] == 'line_out']
     swapped = list(good)
     swapped[outs[0]], swapped[outs[1]] = good[outs[1]], good[outs[0]]
@@ -944,6 +948,7 @@ def run(chk):
     stage('fuzz threads codec selftest')
     flush()
     stage('final judge')
+    faulthandler.cancel_dump_traceback_later()
     chk.assumptions += [
         'lines with action "_" (help text), "update", "log" are asynchronous / informational lines, not replies',
         'for "*IDN?" and "help" a spurious specifier need not be echoed; "describe" may answer with specifier "."',
